@@ -248,6 +248,10 @@ impl Walk {
             self.start(&format!("{} {}", n, t));
         }
     }
+    /// the same program handed over as a FILE: through the static analysis into an interpreter (`abasic FILE`'s way), flags off
+    pub fn load_file(&mut self, p: &Program) {
+        self.op(&format!("load {}", crate::gen::hexs(&p.text())));
+    }
     pub fn poisoned(&self) -> bool {
         self.sess.panicked.is_some()
     }
